@@ -5,7 +5,7 @@
 # (VERIF_REPO) and reverts the scratch tree. Used for sensitivity / neutrality experiments.
 set -u
 PATCH="$(readlink -f "$1")"; shift
-SCR=/tmp/scratch/repo
+SCR="${SCR:-/tmp/scratch/repo}"
 if [ ! -d "$SCR" ]; then git -C /repo worktree add --detach "$SCR" HEAD >/dev/null 2>&1 || exit 2; fi
 git -C "$SCR" checkout -q --detach "$(git -C /repo rev-parse HEAD)" 2>/dev/null
 git -C "$SCR" checkout -- . && git -C "$SCR" clean -fdq -e target
@@ -15,7 +15,7 @@ if [ "${RUN_REPO_TESTS:-1}" = "1" ]; then
 fi
 RC=0
 for id in "$@"; do
-  OUT="$(cd /verif && VERIF_REPO="$SCR" VERIF_ROOT=/tmp/scratch/verif-out ./check "$id" --tier "${TIER:-quick}" 2>&1)"
+  OUT="$(cd "${VERIF_DIR:-/verif}" && VERIF_REPO="$SCR" VERIF_ROOT=/tmp/scratch/verif-out ./check "$id" --tier "${TIER:-quick}" 2>&1)"
   echo "$OUT" | grep -E "^(done|VIOLATION|violation|KNOWN|HARNESS)" | cut -c1-400
 done
 git -C "$SCR" checkout -- . && git -C "$SCR" clean -fdq -e target
